@@ -355,6 +355,7 @@ func main() {
 	}
 	extractMicro(repo, outDir)
 	extractConsts(repo, outDir)
+	extractWrites(repo, outDir)
 	fmt.Printf("registry: %d handler entries, %d invoke entries, %d predicates\n", len(handler), len(invoke), len(names))
 }
 
